@@ -33,6 +33,10 @@ pub struct NodeHost {
     pub payments_notified: u64,
     /// NetworkSwarmCmds other than requests/responses seen (put record, dial, ...), by name
     pub other_cmds: Vec<String>,
+    /// (key, record type as text, does the indexed content hash equal the hash of the held record?
+    /// None = not comparable: chunk/scratchpad type, or a write of the key is in flight) taken at the
+    /// moment the last TriggerIntervalReplication command was handled
+    pub index_at_trigger: Vec<(Vec<u8>, String, Option<bool>)>,
 }
 
 pub fn custom_evm() -> EvmNetwork {
@@ -78,6 +82,7 @@ impl NodeHost {
             next_out: 0,
             payments_notified: 0,
             other_cmds: vec![],
+            index_at_trigger: vec![],
         })
     }
 
@@ -86,6 +91,29 @@ impl NodeHost {
             .verif_store_mut()
             .verif_node_store()
             .expect("node store")
+    }
+
+    fn snapshot_index_at_trigger(&mut self) {
+        use ant_protocol::storage::RecordType;
+        use libp2p::kad::store::RecordStore;
+        let pending: Vec<String> = ant_networking::verif::gates_pending().into_iter().map(|g| g.detail).collect();
+        let index = self.store().verif_index();
+        let mut snap = vec![];
+        for (key, _addr, ty) in index {
+            let kb = key.to_vec();
+            let hexk = hex::encode(&kb);
+            let in_flight = pending.iter().any(|d| d.contains(&hexk) || d.contains(&hexk[..6]));
+            let matches = match (&ty, in_flight) {
+                (RecordType::NonChunk(h), false) => self
+                    .store()
+                    .get(&key)
+                    .map(|r| crate::data::sha3(&r.value) == h.0),
+                _ => None,
+            };
+            snap.push((kb, format!("{ty:?}"), matches));
+        }
+        snap.sort();
+        self.index_at_trigger = snap;
     }
 
     /// Handle everything that has reached the driver's and the node's channels. Returns how many
@@ -99,6 +127,9 @@ impl NodeHost {
                 n += 1;
                 if matches!(cmd, LocalSwarmCmd::PaymentReceived) {
                     self.payments_notified += 1;
+                }
+                if matches!(cmd, LocalSwarmCmd::TriggerIntervalReplication) {
+                    self.snapshot_index_at_trigger();
                 }
                 let text = format!("{cmd:?}");
                 let res = self.driver.verif_handle_local_cmd(cmd);
